@@ -16,9 +16,15 @@ FORBIDDEN = re.compile(r"\b(sorry|admit|native_decide|bv_decide|implemented_by|u
 
 
 class Lock:
+    """Project lock: builds (which relink the driver and rewrite .olean files) are exclusive, users of the
+    build products (driver runs, axiom audits) share it.  Same file as bin/lk."""
+
+    def __init__(self, exclusive=True):
+        self.mode = fcntl.LOCK_EX if exclusive else fcntl.LOCK_SH
+
     def __enter__(self):
-        self.f = open(os.path.join(ROOT, ".lake.lock"), "w")
-        fcntl.flock(self.f, fcntl.LOCK_EX)
+        self.f = open(os.path.join(ROOT, ".lake.lock"), "a")
+        fcntl.flock(self.f, self.mode)
         return self
 
     def __exit__(self, *a):
@@ -93,7 +99,8 @@ def audit(module, theorems, timeout=900):
         for t in theorems:
             f.write(f"#print axioms {t}\n")
     try:
-        rc, out = run(["lake", "env", "lean", path], timeout=timeout)
+        with Lock(exclusive=False):
+            rc, out = run(["lake", "env", "lean", path], timeout=timeout)
     finally:
         try:
             os.unlink(path)
@@ -110,7 +117,8 @@ def audit(module, theorems, timeout=900):
 def drive(lines, timeout=600):
     """Feed JSON-able ops to the native driver; returns parsed outputs (one per op)."""
     data = "\n".join(json.dumps(l) for l in lines) + "\n"
-    p = subprocess.run([DRIVER], input=data, capture_output=True, text=True, timeout=timeout)
+    with Lock(exclusive=False):
+        p = subprocess.run([DRIVER], input=data, capture_output=True, text=True, timeout=timeout)
     outs = [json.loads(l) for l in p.stdout.split("\n") if l.strip()]
     if len(outs) != len(lines):
         raise RuntimeError(f"driver answered {len(outs)} of {len(lines)} lines; stderr={p.stderr[-500:]}")
